@@ -58,7 +58,8 @@ def main():
         if reason is None:
             print("NO REASON FOR", k, file=sys.stderr)
             reason = "UNREVIEWED"
-        out.append({"key": k, "max": len(by[k]), "guards": ["none"], "reason": reason,
+        g = ["char_boundary_range"] if k == "call|std::option::Option::<T>::expect|usize|<-Iterator::find" else ["none"]
+        out.append({"key": k, "max": len(by[k]), "guards": g, "reason": reason,
                     "where": sorted({s["fn"].split("::")[-1] for s in by[k]})[:8]})
     path = os.path.join(HERE, "spec", "panic_audit.json")
     a = json.load(open(path))
